@@ -38,6 +38,11 @@ def run_into(rep, tier, prop, focus=None, budget=None, main_sim=None):
       raise tlc.TLCError('design-level violation in the sibling family: %s' % sx.violation)
     # applied bindings after at least two imports: where the import a name came from matters
     sib = [c for c in _cases(sx) if c['status'] == 'ok' and c['cfg'] and sum(1 for x in c['doc'] if x['t'] == 'import') >= 2]
+    rx = tlc.run('GinDynReg_Export', 'GinDynReg_Export_rebind.cfg', workers=1, timeout=900)
+    rep.add_tlc('GinDynReg_Export_rebind(every file of the family where two imports bind one name, with the specification result)', rx, exhaustive=True)
+    if rx.violation:
+      raise tlc.TLCError('design-level violation in the re-binding family: %s' % rx.violation)
+    sib += [c for c in _cases(rx) if c['status'] == 'ok' and c['cfg'] and sum(1 for x in c['doc'] if x['t'] == 'import') >= 2]
     for c in sib:
       c['family'] = 'sib'
   cases = _cases(ex)
